@@ -181,7 +181,8 @@ def generate(rng, tier, cls):
                                if rng.chance(0.85) else
                                [(1, 'minimal'), (1, 'gzip'), (1, 'mmap'),
                                 (1, 'spooled'), (1, 'file'),
-                                         (1, 'gzipfile')])
+                                         (1, 'gzipfile'), (1, 'rawfile'),
+                                         (1, 'fdfile')])
 
     if r['stream'] == 'buffered':
         r['buf'] = rng.choice([1, 3, 64, 8192])
